@@ -250,3 +250,66 @@ Proof.
     split; [|split]; cbn; try reflexivity; try discriminate.
     split; [discriminate|]. intros [Hz _]. congruence.
 Qed.
+
+(* ---- C13 (g): ONE-TO-ONE. Decoding is injective (two 4-byte values that decode to the same vehicle are the same bytes) and the
+   writer is injective on the values reachable by decoding; outside that set it is NOT: the mod whose id happens to be the
+   little-endian reading of a built-in car's wire name writes that car's bytes (such a Mod value is never produced by decoding,
+   vehicle_unreachable_mod) ---- *)
+Theorem vehicle_decode_injective bs1 bs2 v :
+  allbytes bs1 -> allbytes bs2 -> vehicle_read bs1 = Ok v -> vehicle_read bs2 = Ok v -> bs1 = bs2.
+Proof.
+  intros H1 H2 R1 R2. apply vehicle_reencode in R1; [|exact H1]. apply vehicle_reencode in R2; [|exact H2]. congruence.
+Qed.
+
+Theorem vehicle_write_injective_on_reachable bs1 bs2 v1 v2 :
+  allbytes bs1 -> allbytes bs2 -> vehicle_read bs1 = Ok v1 -> vehicle_read bs2 = Ok v2 ->
+  vehicle_write v1 = vehicle_write v2 -> v1 = v2.
+Proof.
+  intros H1 H2 R1 R2 Hw.
+  pose proof (vehicle_reencode _ _ H1 R1) as W1. pose proof (vehicle_reencode _ _ H2 R2) as W2.
+  assert (bs1 = bs2) as -> by congruence. congruence.
+Qed.
+
+Lemma alnum_byte b : is_alnum b = true -> b < 256.
+Proof.
+  unfold is_alnum. intros H. apply N.ltb_lt.
+  destruct (b <=? 122) eqn:E; [apply N.leb_le in E; apply N.ltb_lt; lia|].
+  destruct (b <=? 90) eqn:E2; [apply N.leb_le in E2; apply N.ltb_lt; lia|].
+  destruct (b <=? 57) eqn:E3; [apply N.leb_le in E3; apply N.ltb_lt; lia|].
+  rewrite !andb_false_r in H. discriminate.
+Qed.
+
+Theorem vehicle_write_collides_off_reachable i nm :
+  vehicle_display i = Some nm ->
+  vehicle_write (Mod (le_dec (nm ++ [0]))) = vehicle_write (Builtin i) /\
+  forall bs, allbytes bs -> vehicle_read bs <> Ok (Mod (le_dec (nm ++ [0]))).
+Proof.
+  intros Hd. pose proof (vehicle_display_wire _ _ Hd) as Hw. apply assoc_in in Hd.
+  destruct (tab_entry _ _ Hd) as [Hlen [Hal _]].
+  assert (allbytes (nm ++ [0])) as Hb.
+  { unfold allbytes. apply Forall_app. split.
+    - apply Forall_forall. intros x Hx. rewrite forallb_forall in Hal. unfold isbyte. apply alnum_byte. auto.
+    - constructor; [unfold isbyte; lia|constructor]. }
+  assert (length (nm ++ [0]) = 4%nat) as Hl by (rewrite app_length, Hlen; reflexivity).
+  split.
+  - rewrite Hw. cbn [vehicle_write].
+    pose proof (le_dec_bound _ Hb) as Hbd. rewrite Hl in Hbd.
+    change (256 ^ N.of_nat 4) with 4294967296 in Hbd.
+    replace (le_dec (nm ++ [0]) <? 4294967296) with true by (symmetry; apply N.ltb_lt; exact Hbd).
+    rewrite <- Hl at 1. rewrite le_enc_dec by exact Hb. reflexivity.
+  - intros bs Hbs Hr.
+    pose proof (vehicle_reencode _ _ Hbs Hr) as W.
+    assert (vehicle_write (Mod (le_dec (nm ++ [0]))) = Ok (nm ++ [0])) as W'.
+    { cbn [vehicle_write].
+      pose proof (le_dec_bound _ Hb) as Hbd. rewrite Hl in Hbd.
+      change (256 ^ N.of_nat 4) with 4294967296 in Hbd.
+      replace (le_dec (nm ++ [0]) <? 4294967296) with true by (symmetry; apply N.ltb_lt; exact Hbd).
+      rewrite <- Hl at 1. rewrite le_enc_dec by exact Hb. reflexivity. }
+    assert (bs = nm ++ [0]) as -> by congruence.
+    assert (vehicle_read (nm ++ [0]) = Ok (Builtin i)) as Hb'.
+    { apply vehicle_builtin_iff; [exact Hl|]. exists nm. auto. }
+    congruence.
+Qed.
+
+Example ex_collision : vehicle_write (Mod 4671064) = vehicle_write (Builtin 0).
+Proof. vm_compute. reflexivity. Qed.
